@@ -190,6 +190,13 @@ def denial_receive_rule(p: Program):
     return out
 
 
+def _parents11(node: ast.AST, root: ast.AST):
+    q = getattr(node, "_parent", None)
+    while q is not None and q is not root:
+        yield q
+        q = getattr(q, "_parent", None)
+
+
 def run(p: Program, rep: Report, tier: str) -> None:
     rep.level = "model_checking"
     rep.explanation = (
@@ -294,6 +301,38 @@ def run(p: Program, rep: Report, tier: str) -> None:
             rep.ok("R11.1", f"{meth} is a loop over {sorted(names)} (covered by that operation)")
         else:
             rep.violation("R11.3", construct(m, text=str(sorted(names))), where(m), f"{meth} uses {sorted(names)} instead of the checked receive helpers")
+
+    # ---------------------------------------------------------------- R11.2 the states only move forward: what is stored into them
+    # The exploration below follows the normal exits. Independently of the path, a state attribute may only ever be assigned a
+    # literal member of the state enumeration (the exploration checks the order of those); a store of a SAVED earlier value - e.g.
+    # restoring the state in an `except` after the server's send() failed - moves the state backwards: after a failed close the
+    # wrapper is CONNECTED again and forwards a second close.
+    n_state_stores = 0
+    for m_ in dict.values(ws.methods):
+        for n in ast.walk(m_.node):
+            tg_ = n.targets if isinstance(n, ast.Assign) else ([n.target] if isinstance(n, (ast.AugAssign, ast.AnnAssign)) and getattr(n, "value", None) is not None else [])
+            for t_ in tg_:
+                for leaf in (t_.elts if isinstance(t_, (ast.Tuple, ast.List)) else [t_]):
+                    if isinstance(leaf, ast.Attribute) and leaf.attr in ("client_state", "application_state") and isinstance(leaf.value, ast.Name) and leaf.value.id == m_.params[0]:
+                        n_state_stores += 1
+                        v_ = n.value
+                        def _lit(e_):
+                            if isinstance(e_, ast.IfExp):
+                                return _lit(e_.body) and _lit(e_.orelse)
+                            return isinstance(e_, ast.Attribute) and e_.attr.isupper() and ast.unparse(e_.value).split(".")[-1] == "WebSocketState"
+                        lit = _lit(v_) and not isinstance(t_, (ast.Tuple, ast.List))
+                        in_handler = any(isinstance(q_, ast.ExceptHandler) for q_ in _parents11(n, m_.node))
+                        saved = isinstance(v_, ast.Name) and any(isinstance(d_, ast.Attribute) and d_.attr in ("client_state", "application_state") for d_ in defs_of(m_, v_))
+                        if lit and not in_handler:
+                            rep.ok("R11.2", f"{m_.name}: {leaf.attr} is assigned literal state member(s): {ast.unparse(v_)[:50]}")
+                        elif not in_handler and not saved:
+                            rep.undecide("R11.2", f"{m_.name}: {leaf.attr} is assigned `{ast.unparse(v_)[:40]}`, not a literal state member: whether the state can move backwards is not decided")
+                        else:
+                            rep.violation("R11.2", construct(m_, text=f"{leaf.attr} = {ast.unparse(v_)[:40]}"), where(m_, n),
+                                          f"{m_.name}() assigns {leaf.attr} " + ("inside an exception handler" if in_handler else "a value that is not a literal state member") +
+                                          f" (`{ast.unparse(n)[:60]}`): the state can move backwards (e.g. back to CONNECTED after a close whose forwarding failed - the next close() is forwarded again)")
+    if n_state_stores == 0:
+        rep.undecide("R11.2", "no store to client_state / application_state found in WebSocket (state kept in an idiom outside the table)")
 
     # ---------------------------------------------------------------- R11.2 product exploration
     init = ("CONNECTING", "CONNECTING", "G0", "S0")
